@@ -1,6 +1,7 @@
 """C11 - tokens carry exact text and location; layout does not matter (reference tokenizer oracle)."""
 import itertools
 import json
+import re
 
 from .. import core, gen, progs, reftok, hostile
 
@@ -250,6 +251,30 @@ def task_layout(args):
                     res.violation(["layout-changes-parse-tree"], {"text": text, "canonical": canon}, {})
                 else:
                     res.count("layout-parse-agree")
+        # a float literal is three tokens (digits, dot, digits): whitespace and comments between THEM are layout too
+        if is_prog and pbase is not None and pbase.get("ok"):
+            plain = [t for t in toks if not isinstance(t, tuple)]
+            fl = [i for i, t in enumerate(plain) if re.match(r"^[0-9]+\.[0-9]+$", t)]
+            if fl:
+                parts = []
+                for i, t in enumerate(plain):
+                    if i in fl:
+                        a, b = t.split(".")
+                        sep1, sep2 = r.choice([(" ", ""), ("", " "), (" ", " "), ("\n", ""), (" // c\n", ""), ("\t", "\t"), ("", "\r\n"), (" ", " // d\n")])
+                        parts.append(a + sep1 + "." + sep2 + b)
+                    else:
+                        parts.append(t)
+                text = " ".join(parts)
+                res.case(text)
+                pl = probe.safe_call({"op": "parse", "text": text})
+                if "panic" in pl or "crash" in pl or "hang" in pl:
+                    res.count("crash-left-to-C04")
+                elif not pl.get("ok"):
+                    res.violation(["layout-breaks-parse", "inside-float-literal"], {"text": text, "canonical": canon}, {"err": pl.get("err", "")[:200]})
+                elif pl["ast"] != pbase["ast"]:
+                    res.violation(["layout-changes-parse-tree", "inside-float-literal"], {"text": text, "canonical": canon}, {})
+                else:
+                    res.count("layout-inside-float-literal-agree")
         if c < 1 and idx < 2:
             res.sample({"canonical": canon[:200]})
     probe.stop()
